@@ -92,7 +92,7 @@ def check_instance(ctx, g, where="ambient"):
     tag = getattr(g, "type", None)
     c = geoms._plain(g.coordinates)
     spec = {"kind": "instance", "where": where, "g": {"type": tag, "coordinates": c}}
-    cls = data.geometries.GEOMETRY_MAPPING.get(tag)
+    cls = getattr(data, tag, None) if tag in geoms.TYPES else None      # the stock class of that name (not the library's own dispatch table)
     if cls is None or not isinstance(g, cls):      # "an instance of the class named by its type tag" (a subclass instance is one)
         ctx.violate("instance:class_matches_tag", "instance:class_matches_tag", observed=type(g).__name__, expected=tag, spec=spec)
         return
@@ -341,8 +341,27 @@ def _grid(tag, vals):
     return []
 
 
+_APP_CLASSES: dict = {}
+
+
+def _define_application_subclasses():
+    from soundevent import data
+
+    if _APP_CLASSES:
+        return
+    for tag in geoms.TYPES:
+        base = getattr(data, tag)
+        # one that only adds behaviour, then one with a mandatory extra field
+        _APP_CLASSES[tag] = (type("Plain" + tag, (base,), {"__module__": __name__, "describe": lambda self: self.type}),
+                             type("Annotated" + tag, (base,), {"__annotations__": {"annotator": str}, "__module__": __name__}))
+
+
 def run(ctx):
     rng = ctx.rng
+    from rv.props import concurrent_jobs
+
+    concurrent_jobs.run_some(ctx, "C03")        # the same calls from a thread pool (rv/core/threads.py)
+    ctx.must_monitors.append("concurrent_calls")
     ctx.rule = ("(type tag, coordinate structure) attempted through constructor / dict / attributes / json; mutation operators on valid bases, "
                 "an exhaustive grid of minimal shapes, tag/coordinate mismatches; non-trivial = a mutation was applied; distinct = distinct structure")
     ctx.assumptions += ["coordinates are JSON numbers (int/float, finite), lists and nothing else (pydantic's lax string/bool coercions are outside 'numeric coordinate structure')"]
@@ -351,6 +370,12 @@ def run(ctx):
         f"data/geometries.py::{c}._validate_coordinates" for c in ("Point", "LineString", "Polygon", "BoundingBox", "MultiPoint", "MultiLineString", "MultiPolygon")
     ] + ["data/geometries.py::TimeStamp._positive_times", "data/geometries.py::TimeInterval._validate_time_interval",
          "data/geometries.py::LineString._is_ordered_by_time", "data/geometries.py::MultiLineString._each_line_is_ordered_by_time"]
+
+    # configuration: the application has classes of its own derived from the library's (a box with a mandatory label, a
+    # contour with provenance).  They inherit the type tag; defining them must not change what a plain tagged dict /
+    # JSON text / attribute object validates to (the class named by its type tag), nor which inputs are accepted.
+    _define_application_subclasses()
+    ctx.mon("application_subclasses_defined")
 
     # exhaustive grid of minimal shapes
     full = [-1, 0, 1, MAXF, MAXF + 1]
